@@ -12,7 +12,7 @@ from vf.gen import reactions as RG
 from vf.gen import species as S
 
 ID = 'C19'
-N = {'quick': 5000, 'thorough': 60000}
+N = {'quick': 15000, 'thorough': 200000}
 NT_RULE = ('1-8 formation reactions sharing gas reference species, norm factors 0.1-10, scans over T, P and '
            '<species>_kwargs pressures with 1-30 grid values (1-D) and pairs (2-D), with and without G_units; '
            'reaction sequences of 1-8 steps with/without transition states.  non-trivial = diagram with >=2 '
